@@ -68,6 +68,15 @@ class Evaluator:
                 return self.env[e['id']]
             if 'cv' in e:
                 return e['cv']
+            if e.get('vk') == 'local' and self.depth < 8:
+                import q as _q
+                d = _q.single_defs(self.f).get(e['id'])
+                if d is not None:
+                    self.depth += 1
+                    try:
+                        return self.ev(d)
+                    finally:
+                        self.depth -= 1
             raise Undecidable('free variable %s' % e.get('n'))
         if k == 'un':
             op = e['op']
